@@ -9,6 +9,7 @@ import (
 type PropConfig struct {
 	Trace       bool                   `json:"trace"`
 	Race        bool                   `json:"race"`
+	Isolate     bool                   `json:"isolate"`
 	Bounds      map[string]interface{} `json:"bounds"`
 	Outside     []string               `json:"outside_bounds"`
 	Assumptions []string               `json:"assumptions"`
